@@ -462,6 +462,15 @@ def rule_r6(prog, res) -> None:
         raise AnalysisError("C11.R6: no sparse (nonzero-mask) HDF5 writer found")
 
 
+def rule_r7(prog, res) -> None:
+    """regenerated bin edges use the stored cosmology (= C15.R2) and exact outer edges (= C15.R7)"""
+    from . import c15
+    from .common import shared_rule
+
+    shared_rule(res, c15.rule_r2, "C15", "C15.R2", "C11.R7")
+    shared_rule(res, c15.rule_r7, "C15", "C15.R7", "C11.R7")
+
+
 RULES = [
     ("C11.R1", rule_r1, QUICK),
     ("C11.R2", rule_r2, QUICK),
@@ -469,4 +478,5 @@ RULES = [
     ("C11.R4", rule_r4, QUICK),
     ("C11.R5", rule_r5, QUICK),
     ("C11.R6", rule_r6, QUICK),
+    ("C11.R7", rule_r7, QUICK),
 ]
